@@ -241,9 +241,19 @@ func (fv *FuncVC) named(v Val, base string) Val {
 func (fv *FuncVC) havocAllHeaps(st *State) {
 	oldAlloc := fv.getHeap(st, "alloc")
 	fv.storeLog = append(fv.storeLog, storeRec{"*", "*"})
+	// nodes of the analysis result are immutable outside package analysis (checked syntactically at load:
+	// World.AnalysisImmutable): unknown code called from a generator cannot change them
+	keep := map[string]string{}
+	if fv.preservesAnalysisNodes() {
+		for h := range fv.heapSort {
+			if isAnalysisNodeHeap(h) {
+				keep[h] = fv.getHeap(st, h)
+			}
+		}
+	}
 	fv.epochCtr++
 	st.epoch = fv.epochCtr
-	st.heaps = map[string]string{}
+	st.heaps = keep
 	newAlloc := fv.getHeap(st, "alloc")
 	fv.addFact(st, "(not (select "+newAlloc+" nil))")
 	fv.addFact(st, fmt.Sprintf("(forall ((r Ref)) (! (=> (select %s r) (select %s r)) :pattern ((select %s r))))", oldAlloc, newAlloc, oldAlloc))
@@ -574,4 +584,12 @@ func (st *State) withGuard(c string) *State {
 	n := st.clone()
 	n.guard = mkAnd(st.guard, c)
 	return n
+}
+
+func isAnalysisNodeHeap(h string) bool {
+	return strings.HasPrefix(h, "F$"+sanitize(repoModule)+".analysis.") || strings.HasPrefix(h, "H$S$"+sanitize(repoModule)+".analysis.")
+}
+
+func (fv *FuncVC) preservesAnalysisNodes() bool {
+	return fv.w.AnalysisImmutable && fv.fi.Pkg.PkgPath != repoModule+"/analysis"
 }
